@@ -1,4 +1,8 @@
 import Snel.Model.ShardProto
+import Snel.Model.WalBufProto
 open Snel
 
-def main : IO Unit := Proto.serve (ShardProto.answerWith id)
+def main : IO Unit := Proto.serve fun line =>
+  match WalBufProto.answer line with
+  | some a => a
+  | none => ShardProto.answerWith id line
